@@ -709,3 +709,125 @@ Lemma pending_counter_leaks_when_disabled :
   let t := mkThrottle 3 1 5 true in
   submit_enter t = (mkThrottle 4 1 5 true, false).
 Proof. reflexivity. Qed.
+
+(** * Throttle: entries, exits and Disable as one event system *)
+From Verif Require Import BreakerSpec.
+
+Lemma tstep2_inv s e : TInv s -> TInv (tstep2 s e) /\
+  t_pending_limit (ts_thr (tstep2 s e)) = t_pending_limit (ts_thr s).
+Proof.
+  destruct e as [e|d]; [apply tstep_inv|].
+  intros H. unfold tstep2, TInv, set_disabled in *. cbn. split; [exact H|reflexivity].
+Qed.
+
+Lemma fold_tstep2_inv : forall es s, TInv s ->
+  TInv (fold_left tstep2 es s) /\
+  t_pending_limit (ts_thr (fold_left tstep2 es s)) = t_pending_limit (ts_thr s).
+Proof.
+  induction es as [|e es IH]; intros s Hs; [split; [exact Hs|reflexivity]|].
+  cbn [fold_left]. destruct (tstep2_inv s e Hs) as [Hs' Hl].
+  destruct (IH _ Hs') as [Hf Hl']. split; [exact Hf|congruence].
+Qed.
+
+Theorem throttle_waiting_bounded : throttle_waiting_bounded_statement.
+Proof.
+  intros es plimit attempts disabled Hp s.
+  destruct (fold_tstep2_inv es (fresh_throttle plimit attempts disabled)) as [[[H0 H1] H2] Hl].
+  { unfold TInv, fresh_throttle; cbn; lia. }
+  fold s in H0, H1, H2, Hl. cbn in Hl. rewrite Hl in H2.
+  split; [lia|].
+  unfold enter_admits, submit_enter. cbn [snd]. rewrite Hl.
+  intros Ha. apply Bool.negb_true_iff in Ha. apply Z.ltb_ge in Ha. lia.
+Qed.
+
+(** Never disabled: the counter is the number waiting. *)
+Definition XInv (plimit : Z) (s : tstate) : Prop :=
+  t_disabled (ts_thr s) = false /\ t_pending_limit (ts_thr s) = plimit /\
+  t_pending (ts_thr s) = ts_waiting s /\ 0 <= ts_waiting s.
+
+Lemma tstep_xinv plimit s e : XInv plimit s -> XInv plimit (tstep s e).
+Proof.
+  intros (Hd & Hl & Hp & H0). destruct e; unfold tstep.
+  - unfold submit_enter. rewrite Hd, Hl, Hp.
+    destruct (Z.ltb_spec plimit (ts_waiting s)); cbn [negb orb].
+    + unfold XInv. cbn. repeat split; assumption.
+    + unfold XInv. cbn. repeat split; try assumption; lia.
+  - destruct (Z.ltb_spec 0 (ts_waiting s)).
+    + unfold XInv, submit_exit. cbn. repeat split; try assumption; lia.
+    + unfold XInv. repeat split; assumption.
+Qed.
+
+Lemma fold_tstep_xinv plimit : forall es s, XInv plimit s -> XInv plimit (fold_left tstep es s).
+Proof.
+  induction es as [|e es IH]; intros s Hs; [exact Hs|].
+  cbn [fold_left]. apply IH, tstep_xinv, Hs.
+Qed.
+
+Lemma fresh_xinv plimit attempts : XInv plimit (fresh_throttle plimit attempts false).
+Proof. unfold XInv, fresh_throttle. cbn. repeat split; lia. Qed.
+
+Lemma xinv_enter_admits plimit s : XInv plimit s -> enter_admits s = (ts_waiting s <=? plimit).
+Proof.
+  intros (Hd & Hl & Hp & H0). unfold enter_admits, submit_enter. cbn [snd].
+  rewrite Hl, Hp. rewrite Z.leb_antisym. reflexivity.
+Qed.
+
+Theorem throttle_counter_exact : throttle_counter_exact_statement.
+Proof.
+  intros es plimit attempts s.
+  pose proof (fold_tstep_xinv plimit es _ (fresh_xinv plimit attempts)) as Hx. fold s in Hx.
+  split; [apply Hx|]. apply (xinv_enter_admits plimit), Hx.
+Qed.
+
+Lemma enters_from plimit : forall n s, XInv plimit s -> 0 <= plimit ->
+  ts_waiting (fold_left tstep (repeat TEnter n) s) =
+  Z.max (ts_waiting s) (Z.min (ts_waiting s + Z.of_nat n) (plimit + 1)).
+Proof.
+  induction n as [|n IH]; intros s Hx Hp.
+  - cbn [repeat fold_left]. destruct Hx as (_ & _ & _ & H0). lia.
+  - cbn [repeat fold_left]. rewrite IH; [|apply tstep_xinv, Hx|exact Hp].
+    pose proof (xinv_enter_admits plimit s Hx) as Ha.
+    destruct Hx as (Hd & Hl & Hpn & H0).
+    unfold tstep. unfold enter_admits in Ha.
+    destruct (submit_enter (ts_thr s)) as [t' adm] eqn:He. cbn [snd] in Ha. subst adm.
+    destruct (Z.leb_spec (ts_waiting s) plimit); cbn [ts_waiting]; lia.
+Qed.
+
+Theorem throttle_recovers : throttle_recovers_statement.
+Proof.
+  intros es plimit attempts n Hp s Hw.
+  pose proof (fold_tstep_xinv plimit es _ (fresh_xinv plimit attempts)) as Hx. fold s in Hx.
+  split; [destruct Hx as (_ & _ & Hpn & _); lia|].
+  rewrite (enters_from plimit n s Hx Hp). lia.
+Qed.
+
+Theorem throttle_overflow_no_effect : throttle_overflow_no_effect_statement.
+Proof.
+  intros s Hd Ha. unfold tstep. unfold enter_admits in Ha.
+  destruct (submit_enter (ts_thr s)) as [t' adm] eqn:He. cbn [snd] in Ha. subst adm.
+  unfold submit_enter in He. rewrite Hd in He.
+  destruct (t_pending_limit (ts_thr s) <? t_pending (ts_thr s)); cbn [negb orb] in He;
+    inversion He; subst. destruct s; reflexivity.
+Qed.
+
+(** The hypotheses are satisfiable: a history after which nothing waits. *)
+Example throttle_recovers_premise :
+  ts_waiting (fold_left tstep [TEnter; TEnter; TEnter; TExit; TExit] (fresh_throttle 1 5 false)) = 0.
+Proof. reflexivity. Qed.
+
+(** The recovery half does NOT hold for a throttle that has been disabled: an
+    over-limit Submit on a disabled throttle increments [pending] and returns
+    ThrottleOverflow without the matching decrement
+    ([pending_counter_leaks_when_disabled]); after pendingLimit+1 such
+    overflows nothing waits, yet every later Submit overflows -- also after
+    Disable(false). *)
+Lemma disabled_throttle_never_recovers_counterexample :
+  let s := fold_left tstep2
+             [TDisable true; TEv TEnter; TEv TEnter; TEv TExit; TDisable false]
+             (fresh_throttle 0 5 false) in
+  ts_waiting s = 0 /\ t_pending (ts_thr s) = 1 /\ enter_admits s = false /\
+  forall n, ts_waiting (fold_left tstep2 (repeat (TEv TEnter) n) s) = 0.
+Proof.
+  cbn. repeat split.
+  induction n as [|n IH]; [reflexivity|exact IH].
+Qed.
